@@ -556,6 +556,7 @@ func worker(name string, seed int64, n, from int64) {
 		out.Flush()
 	}
 	hist := map[string]int{}
+	distinct := map[string]bool{}
 	for k := int64(0); k < n; k++ {
 		r := rand.New(rand.NewSource(seed*1000003 + k)) //nolint:gosec
 		in := genInput(r, k)
@@ -564,6 +565,9 @@ func worker(name string, seed int64, n, from int64) {
 			continue
 		}
 		hist[in.Path+":"+in.Kind]++
+		if in.Hex != "" || in.PayLen > 0 { // non-trivial: not the empty input
+			distinct[fmt.Sprintf("%s|%s|%d|%d|%d", in.Path, in.Hex, in.PayLen, in.Shape, in.BufLen)] = true
+		}
 		fmt.Fprintf(out, "I %d %s\n", k, mustJSON(in))
 		out.Flush()
 		o := g.apply(in, r)
@@ -608,6 +612,7 @@ func worker(name string, seed int64, n, from int64) {
 	case <-time.After(3 * time.Second):
 		emit(finding{K: n, Kind: "hang", Detail: "Close did not return within 3s"})
 	}
+	hist["__distinct"] = len(distinct)
 	fmt.Fprintf(out, "H %s\n", mustJSON(hist))
 	fmt.Fprintf(out, "D\n")
 	out.Flush()
@@ -755,6 +760,7 @@ func main() {
 	}
 	wg.Wait()
 	total := 0
+	distinctTotal := 0
 	for _, c := range res {
 		// one Coq case per target: counts of failure kinds (the oracle demands all zero)
 		cnt := map[string]int64{}
@@ -762,7 +768,12 @@ func main() {
 			cnt[rep.Kind]++
 		}
 		var evals int64
-		for _, v := range c.Hist {
+		for k, v := range c.Hist {
+			if k == "__distinct" {
+				distinctTotal += v
+
+				continue
+			}
 			evals += int64(v)
 		}
 		total += int(evals)
@@ -794,7 +805,8 @@ func main() {
 	if o.Replay == "" {
 		sizeCases(sz, o.Rand())
 	}
-	extra := map[string]interface{}{"fuzz_inputs_total": total, "targets": len(ts)}
+	extra := map[string]interface{}{"fuzz_inputs_total": total, "targets": len(ts), "inputs_run": total + len(sz.Cases),
+		"distinct_nontrivial_inputs": distinctTotal + len(sz.Cases)}
 	cq.Write(o, "fuzz: per interceptor (17 configurations) one long-lived instance fed a seeded stream of inputs over its three paths "+
 		"(incoming RTP bytes, incoming RTCP bytes, outgoing RTP of any size/shape): random bytes, valid, mutated, X-bit on 12 bytes, small read buffers, "+
 		"TWCC with run length beyond the status count / fewer deltas than symbols, structured RFC 8888 blocks, payloads 0/1460/1461/huge; each followed by a "+
